@@ -805,7 +805,9 @@ class IMAPClientCommand:
             swallow=False,
             syntax_error="expected a parenthesized list of key/value pairs",
         )
-        kv_pairs = self._p_paren_list_of(self._p_string_nstring_pairs)
+        kv_pairs = self._p_paren_list_of(
+            self._p_string_nstring_pairs, allow_empty=True
+        )
         for k, v in kv_pairs:
             self.id_dict[k] = v
         return
@@ -836,7 +838,9 @@ class IMAPClientCommand:
         #
         self.flag_list = []
         if self._p_simple_string("(", silent=True, swallow=False):
-            self.flag_list = self._p_paren_list_of(self._p_flag)
+            self.flag_list = self._p_paren_list_of(
+                self._p_flag, allow_empty=True
+            )
             self._p_simple_string(
                 " ", syntax_error="expected ' ' after flag list"
             )
@@ -919,7 +923,9 @@ class IMAPClientCommand:
         self._p_simple_string(" ")
 
         if self._p_simple_string("(", silent=True, swallow=False):
-            self.flag_list = self._p_paren_list_of(self._p_flag)
+            self.flag_list = self._p_paren_list_of(
+                self._p_flag, allow_empty=True
+            )
         else:
             self.flag_list = self._p_list_of(self._p_flag)
 
@@ -1189,7 +1195,9 @@ class IMAPClientCommand:
 
     #######################################################################
     #
-    def _p_paren_list_of(self, func: Callable) -> list[Any]:
+    def _p_paren_list_of(
+        self, func: Callable, allow_empty: bool = False
+    ) -> list[Any]:
         """This function does not parse a specific type of singleton
         element. It is specifically for parsing lists of elements that follow a
         specific convention.
@@ -1214,6 +1222,8 @@ class IMAPClientCommand:
         # If we hit a ')' then it was an empty list.
         #
         if self._p_simple_string(")", silent=True) is not None:
+            if not allow_empty:
+                raise BadSyntax("this list must not be empty")
             return result
 
         # Go through the list looking for tokens
